@@ -85,6 +85,11 @@ LARGE = ["len16-126", "big", "bin-125", "two-len16"]
 DRIVERS = ["recv", "recv_data_frame", "recv_frame", "next"]
 
 
+def trace_variant(desc, tier):
+    """Every task is run a second time with trace logging enabled (enableTrace(True) is a process-wide configuration)."""
+    return True
+
+
 def tasks(tier, seed):
     ts = []
     kinds = ["timeout", "ssl-timeout"]
